@@ -64,3 +64,57 @@ def quiet():
     with warnings.catch_warnings():
         warnings.simplefilter("ignore")
         yield
+
+
+def shadow(modname, **shims):
+    """A shadow copy of a dclab module's namespace in which EVERY function
+    and method defined in that module runs against the given shim globals
+    (so module-level helpers called by the analysed function see the shims
+    too).  Classes become subclasses of the real class with re-bound methods
+    (keeps ``super()`` and ``isinstance`` working).  Returns the namespace
+    dict; canary mutants registered in common._MUTANT are honoured."""
+    import importlib
+    mod = importlib.import_module(modname)
+    g = dict(mod.__dict__)
+    g.update(shims)
+    for name, val in list(mod.__dict__.items()):
+        if name in shims:
+            continue
+        if isinstance(val, types.FunctionType) and \
+                val.__globals__ is mod.__dict__:
+            src = real(modname, name)
+            g[name] = _refunc(src, g)
+        elif isinstance(val, type) and val.__module__ == modname:
+            ns = {}
+            for k, v in val.__dict__.items():
+                if isinstance(v, (types.FunctionType, staticmethod,
+                                  classmethod, property)):
+                    try:
+                        rv = real(modname, name + "." + k)
+                    except Exception:
+                        rv = v
+                    ns[k] = _rewrap(rv, g)
+            g[name] = type(name, (val,), ns)
+    return g
+
+
+def _refunc(f, g):
+    nf = types.FunctionType(f.__code__, g, f.__name__, f.__defaults__,
+                            f.__closure__)
+    nf.__kwdefaults__ = f.__kwdefaults__
+    nf.__qualname__ = f.__qualname__
+    return nf
+
+
+def _rewrap(v, g):
+    if isinstance(v, types.FunctionType):
+        return _refunc(v, g)
+    if isinstance(v, staticmethod):
+        return staticmethod(_refunc(v.__func__, g))
+    if isinstance(v, classmethod):
+        return classmethod(_refunc(v.__func__, g))
+    if isinstance(v, property):
+        return property(_refunc(v.fget, g) if v.fget else None,
+                        _refunc(v.fset, g) if v.fset else None,
+                        _refunc(v.fdel, g) if v.fdel else None)
+    return v
